@@ -62,6 +62,49 @@ fn c15_search() -> i32 {
 	0
 }
 
+/// c17 <file.slp> <keep-end|drop-end> <keep-meta|drop-meta>: the written file declares the raw length it actually has,
+/// can be read again, and re-writing the re-read game reproduces the written bytes.
+fn c17(args: &[String]) -> i32 {
+	use std::io::Cursor;
+	let buf = std::fs::read(&args[0]).unwrap();
+	let mut game = peppi::io::slippi::read(&mut Cursor::new(&buf), None).unwrap();
+	if args[1] == "drop-end" {
+		game.end = None;
+	}
+	if args[2] == "drop-meta" {
+		game.metadata = None;
+	}
+	let mut out = Vec::new();
+	peppi::io::slippi::write(&mut out, &game).unwrap();
+	let declared = u32::from_be_bytes([out[11], out[12], out[13], out[14]]) as usize;
+	// the raw element ends where the tail begins: `U\x08metadata{`...`}}` or the lone closing brace
+	let marker = b"U\x08metadata{";
+	let raw_end = match &game.metadata {
+		Some(_) => out.windows(marker.len()).rposition(|w| w == marker).unwrap(),
+		None => out.len() - 1,
+	};
+	let actual = raw_end - 15;
+	if declared != actual {
+		println!("c17 VIOLATED: declared raw length {} but the raw element has {} bytes ({} {} {})", declared, actual, args[0], args[1], args[2]);
+		return 1;
+	}
+	let again = match peppi::io::slippi::read(&mut Cursor::new(&out), None) {
+		Ok(g) => g,
+		Err(e) => {
+			println!("c17 VIOLATED: written file cannot be read again: {}", e);
+			return 1;
+		}
+	};
+	let mut out2 = Vec::new();
+	peppi::io::slippi::write(&mut out2, &again).unwrap();
+	if out2 != out {
+		println!("c17 VIOLATED: re-writing the re-read game differs from the written file");
+		return 1;
+	}
+	println!("c17 ok: declared == actual == {}", declared);
+	0
+}
+
 fn main() {
 	let args: Vec<String> = std::env::args().skip(1).collect();
 	if args.is_empty() {
@@ -71,6 +114,7 @@ fn main() {
 	let rc = match args[0].as_str() {
 		"c15" => c15(&args[1..]),
 		"c15-search" => c15_search(),
+		"c17" => c17(&args[1..]),
 		_ => {
 			eprintln!("unknown clause {}", args[0]);
 			3
